@@ -28,9 +28,18 @@ def plan(tier, seed):
     return [{'seqs': 900, 'n_each': [60, 140]} for _ in range(64)]
 
 
-def gen_step(rng, g):
+def gen_step(rng, g, prev=None):
     """-> (text, ast or None when malformed)"""
     r = rng.random()
+    if prev and rng.random() < 0.15:
+        # a pattern that prints like an earlier one but means something else (quoted string vs bare word / number)
+        cands = [p for m in prev for p in m['pos'] + m['neg'] if not joinref.is_any(p)]
+        rng.shuffle(cands)
+        for p in cands:
+            t = g.twin(p)
+            if t is not None:
+                mt = {'pos': [t], 'neg': []} if rng.random() < 0.7 else {'pos': [], 'neg': [t]}
+                return mgen.Render().matcher(mt), mt
     if r < 0.1:
         return rng.choice(BAD), None
     if r < 0.17:
@@ -87,9 +96,12 @@ def run_sequence(ctx, rng, g, lines, projs):
     cmds = []
     interesting = 0
     wellformed = 0
+    prev = {'filter': [], 'breakpoint': []}
     for step in range(rng.randint(1, 12)):
         kind = rng.choice(['filter', 'filter', 'breakpoint'])
-        text, ast = gen_step(rng, g)
+        text, ast = gen_step(rng, g, prev[kind])
+        if ast is not None:
+            prev[kind].append(ast)
         spelled = rng.choice({'filter': ['filter', 'f', 'wlf', 'wl filter', 'fil'], 'breakpoint': ['breakpoint', 'b', 'wlb', 'w b', 'break']}[kind])
         cmd = spelled + ' ' + text
         cmds.append(cmd)
